@@ -2,6 +2,7 @@ package seq
 
 import (
 	"bytes"
+	"encoding/base64"
 	"encoding/hex"
 	"encoding/json"
 	"fmt"
@@ -85,6 +86,16 @@ func faultValue(name string) interface{} {
 		return []interface{}{"x"}
 	case "b64":
 		return "AAAA"
+	case "b64n24": // base64 of exactly 24 bytes (a well-sized secretbox nonce)
+		return base64.StdEncoding.EncodeToString(make([]byte, 24))
+	case "b64n23":
+		return base64.StdEncoding.EncodeToString(make([]byte, 23))
+	case "b64n25":
+		return base64.StdEncoding.EncodeToString(make([]byte, 25))
+	case "b64long": // base64 of 64 bytes
+		return base64.StdEncoding.EncodeToString(bytes.Repeat([]byte{0xab}, 64))
+	case "b64empty":
+		return ""
 	}
 	for _, f := range faultVals {
 		if f.name == name {
@@ -99,7 +110,7 @@ func faultNames() []string {
 	for _, f := range faultVals {
 		n = append(n, f.name)
 	}
-	return append(n, "link", "badlink", "emptylink", "linklist", "badlinklist", "nulllist", "textlist", "b64")
+	return append(n, "link", "badlink", "emptylink", "linklist", "badlinklist", "nulllist", "textlist", "b64", "b64n24", "b64n23", "b64n25", "b64long", "b64empty")
 }
 
 // genericEntry mirrors the CBOR schema of a v2 entry as a generic value tree.
@@ -454,6 +465,15 @@ func c12Cases(tier string) []c12Case {
 				for _, v2 := range pairVals {
 					cs = append(cs, c12Case{Kind: "cbor-grid", Base: "linked", Faults: []fault{{p1, v1}, {p2, v2}}})
 				}
+			}
+		}
+	}
+	// the encrypted-links pair: every combination of base64-shaped values (lengths around the nonce size)
+	b64s := []string{"b64", "b64n23", "b64n24", "b64n25", "b64long", "b64empty", "text", "absent"}
+	for _, b := range c12Bases {
+		for _, v1 := range b64s {
+			for _, v2 := range b64s {
+				cs = append(cs, c12Case{Kind: "cbor-grid", Base: b.name, Faults: []fault{{"enc_links", v1}, {"enc_links_nonce", v2}}})
 			}
 		}
 	}
